@@ -53,6 +53,7 @@ type Contract struct {
 	Light    bool // light (tolerant) mode: only pre-of/assert obligations, unknown constructs havoc
 	Props    []string
 	Requires []*Clause
+	Domain   []*Clause // verified only for inputs satisfying these; not checked at call sites (ensures become conditional)
 	Ensures  []*Clause
 	Assigns  []*Clause // each: one lvalue expression, or "nothing"/"everything"
 	HasAssigns bool
@@ -74,7 +75,7 @@ type ContractSet struct {
 	Order   []string
 }
 
-var kwRe = regexp.MustCompile(`^(func|trusted|spec|opaque|declare|axiom|lemma|props|requires|ensures|assigns|loop|inline|light|assert|pure|stable|ghost|maypanic|note)\b`)
+var kwRe = regexp.MustCompile(`^(func|trusted|spec|opaque|declare|axiom|lemma|props|requires|domain|ensures|assigns|loop|inline|light|assert|pure|stable|ghost|maypanic|note)\b`)
 var nameRe = regexp.MustCompile(`^\[([A-Za-z0-9_\-:#.]+)\]\s*`)
 
 func newContractSet() *ContractSet {
@@ -171,6 +172,15 @@ func (cs *ContractSet) readContractFile(path, pkgPath string) error {
 			if cur != nil {
 				cur.Notes = append(cur.Notes, rest)
 			}
+		case "domain":
+			if cur == nil {
+				return fail("domain outside func")
+			}
+			c, err := mkClause(word, rest, path, s.line)
+			if err != nil {
+				return fail("%v", err)
+			}
+			cur.Domain = append(cur.Domain, c)
 		case "requires", "ensures":
 			if cur == nil {
 				return fail("%s outside func", word)
